@@ -387,12 +387,12 @@ def rule_r6(repo):
 
 def run(repo, check):
     from sa.rules import c09
-    check.add(rule_r1(repo))
-    check.add(rule_r2(repo))
-    check.add(rule_r3(repo, check.tier))
-    check.add(rule_r4(repo))
-    check.add(rule_r5(repo))
-    check.add(rule_r6(repo))
+    check.run_rule(rule_r1, repo)
+    check.run_rule(rule_r2, repo)
+    check.run_rule(rule_r3, repo, check.tier)
+    check.run_rule(rule_r4, repo)
+    check.run_rule(rule_r5, repo)
+    check.run_rule(rule_r6, repo)
     r7 = c09.rule_r1(repo, 'C07.R7')
     r7.title = 'coder / wirer lockstep (shared with C09.R1): attributes attach to the right flat entries only if both sides count alike'
     check.add(r7)
